@@ -260,7 +260,20 @@ def run_property(prop, tier, seed, replay=None):
             failures.append((s, dict(sub=s.name, verdict='harness process exited %d without a recorded case; log %s' % (rc, crashfile),
                                      **{'class': 'harness-exit'}, replay=crashfile)))
     # exhaustive flags only count if every shard of that sub finished
-    # 4. replay-before-report
+    # 4. replay-before-report (one representative per (harness, class); the rest are counted, not replayed)
+    seen_classes = {}
+    reps = []
+    for s, f in failures:
+        ck = (s.harness, f.get('class', ''))
+        if ck in seen_classes:
+            seen_classes[ck] += 1
+            continue
+        seen_classes[ck] = 1
+        reps.append((s, f))
+    dup = sum(v - 1 for v in seen_classes.values())
+    if dup:
+        merged['counters']['failing_shards_of_an_already_reported_class'] = dup
+    failures = reps
     for s, f in failures:
         path = f.get('replay', '')
         verdict = f.get('verdict', '')
